@@ -45,6 +45,7 @@ type inlPrep struct {
 	csrc    []byte
 	cname   string
 	typeStr func(types.Type) (string, bool)
+	multi   bool // the callee has other uses: its declaration stays
 }
 
 type textEdit struct {
@@ -184,12 +185,16 @@ func tailInlineOverlay(pkgs []*packages.Package, base map[string][]byte) map[str
 					recvExpr = fx.X
 				}
 			}
-			if fn == nil || fn.Pkg() != p.Types || uses[fn] != 1 || fn.Exported() {
+			if fn == nil || fn.Pkg() != p.Types || (uses[fn] != 1 && !normInlineMulti) || fn.Exported() {
 				return nil
 			}
 			callee := decls[fn]
 			if callee == nil || callee == caller || done[callee] || done[caller] {
 				return nil
+			}
+			multi := uses[fn] != 1
+			if multi && p.Fset.Position(callee.End()).Line-p.Fset.Position(callee.Pos()).Line > 40 {
+				return nil // copies of a long body help nobody
 			}
 			sig := fn.Type().(*types.Signature)
 			if sig.Variadic() || sig.TypeParams() != nil {
@@ -282,13 +287,36 @@ func tailInlineOverlay(pkgs []*packages.Package, base map[string][]byte) map[str
 				return s, okT
 			}
 			var binds, names []string
-			bindOne := func(name string, t types.Type, argText string) bool {
+			bindOne := func(name string, t types.Type, argText string, argExpr ast.Expr) bool {
 				if name == "" || name == "_" {
+					return true
+				}
+				// `var a T = x; var b T = a`: the second initialiser would read the new a, not the caller's
+				for _, prev := range names {
+					for _, tok := range strings.FieldsFunc(argText, func(r rune) bool {
+						return !(r == '_' || r >= '0' && r <= '9' || r >= 'a' && r <= 'z' || r >= 'A' && r <= 'Z' || r > 127)
+					}) {
+						if tok == prev {
+							return false
+						}
+					}
+				}
+				// an argument that already has the parameter's type needs no type name (which a caller's local may shadow)
+				if tv, ok := info.Types[argExpr]; ok && tv.Type != nil && tv.Value == nil && !tv.IsNil() && types.Identical(tv.Type, t) {
+					binds = append(binds, fmt.Sprintf("var %s = %s", name, argText))
+					names = append(names, name)
 					return true
 				}
 				ts, okT := typeStr(t)
 				if !okT {
 					return false
+				}
+				for _, tok := range strings.FieldsFunc(ts, func(r rune) bool {
+					return !(r == '_' || r >= '0' && r <= '9' || r >= 'a' && r <= 'z' || r >= 'A' && r <= 'Z' || r > 127)
+				}) {
+					if callerLocals[tok] {
+						return false // the type's name means something else inside the caller
+					}
 				}
 				binds = append(binds, fmt.Sprintf("var %s %s = %s", name, ts, argText))
 				names = append(names, name)
@@ -303,7 +331,7 @@ func tailInlineOverlay(pkgs []*packages.Package, base map[string][]byte) map[str
 				if !types.Identical(info.TypeOf(recvExpr), rt) || !pure(recvExpr) {
 					return nil
 				}
-				if !bindOne(rn, rt, string(fsrc[off(recvExpr.Pos()):off(recvExpr.End())])) {
+				if !bindOne(rn, rt, string(fsrc[off(recvExpr.Pos()):off(recvExpr.End())]), recvExpr) {
 					return nil
 				}
 			} else if sig.Recv() != nil {
@@ -321,7 +349,7 @@ func tailInlineOverlay(pkgs []*packages.Package, base map[string][]byte) map[str
 					}
 					continue
 				}
-				if !bindOne(pn, sig.Params().At(i).Type(), string(fsrc[off(arg.Pos()):off(arg.End())])) {
+				if !bindOne(pn, sig.Params().At(i).Type(), string(fsrc[off(arg.Pos()):off(arg.End())]), arg) {
 					return nil
 				}
 			}
@@ -329,9 +357,12 @@ func tailInlineOverlay(pkgs []*packages.Package, base map[string][]byte) map[str
 			if len(binds) > 0 {
 				bt = strings.Join(binds, "; ") + "; " + strings.TrimSuffix(strings.Repeat("_, ", len(names)), ", ") + " = " + strings.Join(names, ", ") + ";"
 			}
-			return &prep{callee, cf, sig, bt, csrc, cname, typeStr}
+			return &prep{callee, cf, sig, bt, csrc, cname, typeStr, multi}
 		}
 		blankCallee := func(pr *prep) {
+			if pr.multi {
+				return
+			}
 			ds := pr.callee.Pos()
 			if pr.callee.Doc != nil {
 				ds = pr.callee.Doc.Pos()
@@ -468,7 +499,121 @@ func tailInlineOverlay(pkgs []*packages.Package, base map[string][]byte) map[str
 				edits[f] = append(edits[f], textEdit{off(wrapIf.End()), off(wrapIf.End()), " }", nil})
 			}
 			blankCallee(pr)
-			done[caller], done[pr.callee] = true, true
+			done[caller], done[pr.callee] = true, !pr.multi
+			return true
+		}
+		// hoist: st (an element of a statement list) uses the result of exactly one inlinable call C somewhere inside an
+		// expression - `return C, 4, nil`, `x := a + C`, `pos += C`, `if C == 3 {`, `switch C {` - and everything of the
+		// statement's own expressions outside C is free of calls, of operations that can panic and of short-circuit
+		// evaluation that could skip C. Then `t := C` is placed in front and C replaced by t: C was the only thing with an
+		// effect, so doing it first changes nothing. The next round inlines `t := C` as a whole statement.
+		hoist := func(f *ast.File, fsrc []byte, caller *ast.FuncDecl, st ast.Stmt) bool {
+			var exprs []ast.Expr
+			switch x := st.(type) {
+			case *ast.ReturnStmt:
+				exprs = x.Results
+			case *ast.AssignStmt:
+				for _, l := range x.Lhs {
+					if _, isID := l.(*ast.Ident); !isID {
+						return false
+					}
+				}
+				exprs = x.Rhs
+			case *ast.IfStmt:
+				if x.Init != nil {
+					return false
+				}
+				exprs = []ast.Expr{x.Cond}
+			case *ast.SwitchStmt:
+				if x.Init != nil || x.Tag == nil {
+					return false
+				}
+				exprs = []ast.Expr{x.Tag}
+			default:
+				return false
+			}
+			var cand *ast.CallExpr
+			okH := true
+			var walk func(e ast.Expr, top bool)
+			walk = func(e ast.Expr, top bool) {
+				if !okH || e == nil {
+					return
+				}
+				switch x := e.(type) {
+				case *ast.Ident, *ast.BasicLit:
+				case *ast.ParenExpr:
+					walk(x.X, false)
+				case *ast.UnaryExpr:
+					if x.Op != token.SUB && x.Op != token.NOT && x.Op != token.ADD && x.Op != token.XOR {
+						okH = false
+						return
+					}
+					walk(x.X, false)
+				case *ast.BinaryExpr:
+					switch x.Op {
+					case token.ADD, token.SUB, token.MUL, token.AND, token.OR, token.XOR, token.AND_NOT, token.EQL, token.NEQ, token.LSS, token.LEQ, token.GTR, token.GEQ:
+						if tv, ok := info.Types[x.X]; ok && tv.Type != nil {
+							if b, isB := tv.Type.Underlying().(*types.Basic); !isB || b.Info()&(types.IsInteger|types.IsBoolean|types.IsUntyped) == 0 {
+								okH = false // string concatenation allocates, interface comparison can panic
+								return
+							}
+						}
+						walk(x.X, false)
+						walk(x.Y, false)
+					default:
+						okH = false
+					}
+				case *ast.SelectorExpr:
+					id, isID := x.X.(*ast.Ident)
+					if !isID {
+						okH = false
+						return
+					}
+					if _, isPkg := info.Uses[id].(*types.PkgName); isPkg {
+						return
+					}
+					if t := info.TypeOf(id); t == nil || structOfAST(t) == nil {
+						okH = false // through a pointer: can panic
+					}
+				case *ast.CallExpr:
+					if tv, ok := info.Types[x.Fun]; ok && tv.IsType() && len(x.Args) == 1 {
+						walk(x.Args[0], false) // a conversion
+						return
+					}
+					if cand != nil {
+						okH = false
+						return
+					}
+					cand = x
+				default:
+					okH = false
+				}
+			}
+			for _, e := range exprs {
+				walk(e, true)
+			}
+			if !okH || cand == nil {
+				return false
+			}
+			if len(exprs) == 1 && exprs[0] == ast.Expr(cand) {
+				switch x := st.(type) {
+				case *ast.ReturnStmt:
+					return false // a tail call: form (1)
+				case *ast.AssignStmt:
+					if x.Tok == token.ASSIGN || x.Tok == token.DEFINE {
+						return false // a whole statement: form (2)
+					}
+				}
+			}
+			pr := prepare(cand, f, caller, fsrc)
+			if pr == nil || knownFuncNames[pr.callee.Name.Name] || pr.sig.Results().Len() != 1 {
+				return false
+			}
+			// the arguments of C stay where they are (inside C); the receiver and arguments were checked by prepare
+			tmp := fmt.Sprintf("inlH%d", off(cand.Pos()))
+			edits[f] = append(edits[f], textEdit{off(st.Pos()), off(st.Pos()), tmp + " := " + string(fsrc[off(cand.Pos()):off(cand.End())]) + "; ", nil})
+			edits[f] = append(edits[f], textEdit{off(cand.Pos()), off(cand.End()), tmp, nil})
+			done[caller] = true
 			return true
 		}
 		for _, f := range p.Syntax {
@@ -508,7 +653,7 @@ func tailInlineOverlay(pkgs []*packages.Package, base map[string][]byte) map[str
 					text := "{ " + pr.binds + body + "}"
 					edits[f] = append(edits[f], textEdit{off(ret.Pos()), off(ret.End()), text, originsFor(pr, text)})
 					blankCallee(pr)
-					done[caller], done[pr.callee] = true, true
+					done[caller], done[pr.callee] = true, !pr.multi
 					return true
 				})
 				if done[caller] || !normInlineStmts {
@@ -541,6 +686,9 @@ func tailInlineOverlay(pkgs []*packages.Package, base map[string][]byte) map[str
 								return false
 							}
 						}
+						if normInlineMulti && !done[caller] && hoist(f, fsrc, caller, st) {
+							return false
+						}
 					}
 					return true
 				})
@@ -557,4 +705,9 @@ func tailInlineOverlay(pkgs []*packages.Package, base map[string][]byte) map[str
 		return nil
 	}
 	return out
+}
+
+func structOfAST(t types.Type) *types.Struct {
+	st, _ := t.Underlying().(*types.Struct)
+	return st
 }
